@@ -34,7 +34,8 @@ def chain(maxd, hops=1, **c):
 FAMILIES = {
     "Compose": fam("MC_Compose",
                    quick=[ex(2, NilOps="= TRUE"), ex(3, Ops="<- OpsW"), sim(1500, 6, design=False, NSlots="= 3")],
-                   thorough=[ex(2, NilOps="= TRUE"), chain(3, hops=0), ex(4, Ops="<- OpsW"), sim(30000, 8, NSlots="= 3")]),
+                   thorough=[ex(2, NilOps="= TRUE"), chain(3, hops=0), ex(3, Ops="<- OpsW"), chain(4, hops=0, Ops="<- OpsW"),
+                             sim(30000, 8, NSlots="= 3")]),
     "Source": fam("MC_Compose",
                   quick=[ex(4, NSlots="= 1", Ops="<- OpsSrc", Shapes="<- ShapesOne", Shapes2="<- Shapes2V")],
                   thorough=[ex(5, NSlots="= 1", Ops="<- OpsSrc", Shapes="<- ShapesOne", Shapes2="<- Shapes2V")]),
